@@ -227,6 +227,51 @@ fn check_encodings_x(fam: &str, word: &[u8], x: Vec<X>, alpha: &[X], ctx: &mut C
     }
 }
 
+/// null transparency of the rolling statistics that do not depend on positions: the output at position i equals the
+/// statistic of the window with its nulls deleted (run with the same window parameter, so that nothing expires)
+fn check_rolling_transparency(word: &[u8], alpha: &[X], ctx: &mut Ctx) {
+    let fam = "rolling-transparency";
+    let x = decode(word, alpha);
+    let len = x.len();
+    ctx.fam(fam).states += 1;
+    if x.iter().any(|v| v.is_none()) {
+        ctx.nontrivial(fam, hash_bytes(word));
+    } else {
+        return;
+    }
+    let fns = [R1::Sum, R1::Mean, R1::Ewm, R1::Wma, R1::Std, R1::Var, R1::Skew, R1::Kurt, R1::Min, R1::Max];
+    for ty in [ty_v1::<f64, f64>(), ty_v1::<Option<f64>, f64>()] {
+        for w in 1..=len + 1 {
+            for &f in &fns {
+                let full = match (ty.run)(f, &x, w, Some(0), Path::Ret) {
+                    Some(Outcome::Ok(c)) => c,
+                    _ => continue, // panics and non-existent cells are judged by C01 / C05
+                };
+                ctx.eval(fam, hash_cells(&full));
+                for i in 0..len {
+                    let lo = (i + 1).saturating_sub(w);
+                    let compact: Vec<X> = x[lo..=i].iter().filter(|v| v.is_some()).cloned().collect();
+                    if compact.len() == i + 1 - lo {
+                        continue; // no null in this window
+                    }
+                    ctx.transitions += 1;
+                    if compact.is_empty() {
+                        continue; // a window of nothing but nulls: the value of an empty window is C01's / C05's subject
+                    }
+                    let want = match (ty.run)(f, &compact, w, Some(0), Path::Ret) {
+                        Some(Outcome::Ok(c)) => c.last().cloned().unwrap_or(Cell::Null),
+                        _ => continue,
+                    };
+                    let same = if matches!(f, R1::Min | R1::Max | R1::Sum) { exact_eq(&full[i], &want) } else { tol_eq(&full[i], &want) };
+                    if !same {
+                        viol(ctx, format!("rolling-transparency:{}", r1_name(f, true)), None, len * 100 + w, json!({"family": fam, "word": word, "series": json_word(&x), "w": w, "pos": i, "ty": ty.name, "window_without_nulls": json_word(&compact)}), format!("as on the window with its nulls deleted: {}", want.show()), full[i].show());
+                    }
+                }
+            }
+        }
+    }
+}
+
 fn strip(o: Outcome<Drained>) -> Outcome<Vec<Cell>> {
     match o {
         Outcome::Ok(d) => Outcome::Ok(d.cells),
@@ -389,7 +434,7 @@ impl TreeSys for Fam {
         self.max_len
     }
     fn name(&self) -> String {
-        ["encodings", "transparency", "transparency-pairs", "encodings-inf", "encodings-nan-kinds", "transparency-nan-kinds"][self.kind as usize].to_string()
+        ["encodings", "transparency", "transparency-pairs", "encodings-inf", "encodings-nan-kinds", "transparency-nan-kinds", "rolling-transparency"][self.kind as usize].to_string()
     }
     fn visit(&self, w: &[u8], _p: Option<&()>, ctx: &mut Ctx) {
         match self.kind {
@@ -405,6 +450,7 @@ impl TreeSys for Fam {
                     }
                 }
             }
+            6 => check_rolling_transparency(w, &self.alpha, ctx),
             5 => {
                 for kind in [1u8, 3] {
                     with_nan_kind(kind, || check_transparency_fam("transparency-nan-kinds", w, &self.alpha, self.max_nulls, ctx));
@@ -424,6 +470,7 @@ fn main() {
     // infinities are valid observations under both encodings (only NaN / None are null)
     let enc_inf = Fam { alpha: vec![None, Some(f64::NEG_INFINITY), Some(0.0), Some(1.0), Some(f64::INFINITY)], max_len: run.pick(4, 5), kind: 3, max_nulls: 0 };
     let enc_nan = Fam { alpha: vec![None, Some(-1.0), Some(0.0), Some(2.0)], max_len: run.pick(4, 6), kind: 4, max_nulls: 0 };
+    let roll_tr = Fam { alpha: vec![None, Some(-1.0), Some(0.0), Some(1.0), Some(3.0)], max_len: run.pick(5, 7), kind: 6, max_nulls: 0 };
     let tr_nan = Fam { alpha: vec![Some(-2.0), Some(0.0), Some(3.0)], max_len: run.pick(3, 5), kind: 5, max_nulls: 2 };
     if let Some(path) = &run.replay {
         let stored = load_replay(path).unwrap_or_else(|e| {
@@ -439,6 +486,7 @@ fn main() {
             "transparency" => check_transparency(&word, &tr.alpha, 3, &mut ctx),
             "encodings-nan-kinds" => enc_nan.visit(&word, None, &mut ctx),
             "transparency-nan-kinds" => tr_nan.visit(&word, None, &mut ctx),
+            "rolling-transparency" => roll_tr.visit(&word, None, &mut ctx),
             _ => check_transparency2(&word, &tr2.alpha, &mut ctx),
         }
         std::process::exit(finish_replay(&run, &stored, ctx));
@@ -449,6 +497,7 @@ fn main() {
     total.merge(explore_tree(&tr2, run.threads));
     total.merge(explore_tree(&enc_nan, run.threads));
     total.merge(explore_tree(&tr_nan, run.threads));
+    total.merge(explore_tree(&roll_tr, run.threads));
     total.merge(encodings_long(!run.quick(), run.threads, &enc.alpha));
     total.sample(json!({"relation": "encoding", "entry": "ts_vstd", "series_f64": "[NaN, 1.0, 3.0]", "series_option": "[None, Some(1.0), Some(3.0)]", "outputs_equal_after_decoding": true}));
     total.sample(json!({"relation": "transparency", "op": "vskew(0)", "base": [-2, 0, 3], "with_nulls": [null, -2, 0, null, 3], "equal": true}));
